@@ -6,6 +6,7 @@ logging and raising ones), every surrounding code, every stack and world.
 import GPy.C01.SimProofs
 import GPy.C01.Order
 import GPy.C01.OrderExact
+import GPy.C01.Paths
 import GPy.C01.Dispatch
 namespace GPy.C01
 
@@ -63,6 +64,65 @@ theorem compS_correct (hU : UnpackLen P) (st : Stmt) (pre k : List Instr) (s : L
   cases hr : execS P st w with
   | ok v w' => rw [hr] at h; exact run_of_star P h
   | err x w' => rw [hr] at h; exact run_of_raises P h
+
+/-- **Code object of a function.**  The code of `lambda sg: body` / `def name(sg): return body`,
+run in a fresh frame (empty stack), returns exactly the value – or raises exactly the exception –
+of the reference evaluation of `body`, where a name is looked up as a parameter (`loadFast`) or a
+global (`loadGlobal`): the body of a function is evaluated by the same rules when it is called.
+(Binding the arguments to the parameters and creating the frame is inside the primitive `call`.) -/
+theorem lambdaBody_correct (name : String) (sg : Sig) (body : Expr) (w : W) :
+    match evalE (P.inFunction sg.names) body w with
+    | .ok v w' => ∃ n, ∀ m, run P (compBody name sg body) (n + m) 0 [] w = .ret v w'
+    | .err x w' => ∃ n, ∀ m, run P (compBody name sg body) (n + m) 0 [] w = .exc x w' := by
+  have hc := compE_correct (P.inFunction sg.names) body [] [Instr.RETURN_VALUE] [] w
+  simp only [List.nil_append, List.length_nil, Nat.zero_add] at hc
+  rw [compBody_eq]
+  simp only [run_map_resolve]
+  cases hr : evalE (P.inFunction sg.names) body w with
+  | ok v w' =>
+    rw [hr] at hc
+    obtain ⟨n, hn⟩ := hc
+    refine ⟨n + 1, fun m => ?_⟩
+    have e : n + 1 + m = n + (m + 1) := by omega
+    rw [e, hn (m + 1)]
+    have h0 : (compE body 0 ++ [Instr.RETURN_VALUE])[size body]? = some .RETURN_VALUE := by
+      simp [length_compE]
+    simp only [run, h0, exec]
+  | err x w' =>
+    rw [hr] at hc
+    obtain ⟨n, hn⟩ := hc
+    exact ⟨n + 1, fun m => hn m⟩
+
+/-- **Default expressions of a function definition**: the positional defaults left to right,
+then the keyword-only defaults in order, then the function object is made from them – the
+rule stated outright. -/
+theorem lambda_defaults_order (sg : Sig) (ds : Exprs) (kds : KWs) (body : Expr) :
+    evalE P (.lambda sg ds kds body)
+      = M.bind (evalEs P ds) fun dvs => M.bind (evalKWs P kds) fun kvs =>
+        P.mkFunction (P.codeObj "<lambda>" sg body) (P.const (.str "<lambda>")) dvs kvs := by
+  simp only [evalE]
+
+/-- a raising positional default cuts every keyword-only default off -/
+theorem lambda_posdefault_raises (sg : Sig) (ds : Exprs) (kds : KWs) (body : Expr) (w w1 : W) (x : X)
+    (h : evalEs P ds w = .err x w1) : evalE P (.lambda sg ds kds body) w = .err x w1 := by
+  simp [evalE, M.bind, h]
+
+/-- **General call**: callee, positional arguments, keyword values, `*` expression, `**`
+expression – in this order, each once – then ONE call with all of them. -/
+theorem callx_order (f : Expr) (args : Exprs) (kws : KWs) (star dstar : OptE) :
+    evalE P (.callx f args kws star dstar)
+      = M.bind (evalE P f) fun vf => M.bind (evalEs P args) fun vs => M.bind (evalKWs P kws) fun ks =>
+        M.bind (evalOpt P star) fun sv => M.bind (evalOpt P dstar) fun dv => P.callEx vf vs ks sv dv := by
+  simp only [evalE]
+
+/-- **Starred target** `(b…, *t, a…) = v`: ONE unpacking of `v`, then the targets left to right -/
+theorem star_target_order (b a : Targets) (t : Target) (v : V) (w w1 : W) (vs : List V) (m : V)
+    (rest : List V) (hu : P.unpackEx b.length a.length v w = .ok vs w1)
+    (hd : vs.drop b.length = m :: rest) :
+    assignTo P (.star b t a) v w
+      = (M.bind (assignAll P b (vs.take b.length)) fun _ =>
+         M.bind (assignTo P t m) fun _ => assignAll P a rest) w1 := by
+  simp only [assignTo, M.bind, hu, hd]
 
 /-- `t1 = t2 = … = value`: right-hand side first, then every target left to right -/
 theorem compAssign_correct (hU : UnpackLen P) (t : Target) (more : Targets) (value : Expr)
@@ -243,6 +303,78 @@ example : Straight (.binop .mul (.binop .sub (.atom 1 (.int 2)) (.atom 2 (.int 3
     (.subscript (.name "c1") (.atom 3 (.int 5)))) := by
   simp [Straight]
 
+/-- **Order, one list-valued statement covering the short-circuit forms.**  `paths e` is the finite
+set of branch paths of `e` (one per choice of: where each `and`/`or` stops, where each comparison
+chain stops, which arm of each conditional runs); by `paths_sublist_order` each path is a
+sub-sequence of the reference order `order e`, i.e. it lists the probes that are not cut off,
+each once, in order.  For every `Prims` with a probe log: a SUCCESSFUL evaluation logs EXACTLY one
+of the paths of `e` (so every probe not cut off by a taken short-circuit / untaken arm is evaluated
+exactly once, in order), and an evaluation that RAISES logs a PREFIX of one (nothing after the
+raising operand).  Covers BoolOp, comparison chains, IfExp, function definitions with defaults,
+3-bound slices, keyword/`*`/`**` calls.
+EXCLUDED (hence `_partial`): call nodes whose callee is not a plain name from `qn`, a set of names
+bound to functions that leave the probe log alone (`callQ`, `callExQ`): a call of an arbitrary
+callee (a lambda with probes in its body, `ev` itself written as a general call) may log anything;
+for those the callee-then-arguments order is `compE_correct` + the definition of `evalE`. -/
+theorem evalE_order_paths_partial {qn : String → Prop} (hL : LogDisciplineQ P logOf qn) (e : Expr)
+    (hq : QCalls qn e) (w : W) :
+    match evalE P e w with
+    | .ok _ w' => ∃ p ∈ paths e, logOf w' = logOf w ++ p
+    | .err _ w' => ∃ p ∈ paths e, ∃ l, l <+: p ∧ logOf w' = logOf w ++ l := by
+  have h := pE P hL e w hq
+  cases hr : evalE P e w with
+  | ok v w' => rw [hr] at h; exact h
+  | err x w' => rw [hr] at h; exact h
+
+/-- every branch path is a sub-sequence of the reference order (so `evalE_order_paths_partial`
+implies the "in order, none twice" statement, now also for trees with calls of quiet names) -/
+theorem paths_in_order (e : Expr) (p : List Nat) (hp : p ∈ paths e) : p.Sublist (order e) :=
+  paths_sublist_order e p hp
+
+/-- … and a straight-line tree has exactly ONE path, the whole reference order: on those trees
+`evalE_order_paths_partial` is `evalE_order_exact` -/
+theorem paths_of_straight (e : Expr) (hs : Straight e) : paths e = [order e] :=
+  paths_straight e hs
+
+/-- the VM inherits it -/
+theorem vm_order_paths_partial {qn : String → Prop} (hL : LogDisciplineQ P logOf qn) (e : Expr)
+    (hq : QCalls qn e) (pre k : List Instr) (s : List V) (w : W) :
+    ∃ p ∈ paths e,
+      ((∃ v w' n, logOf w' = logOf w ++ p ∧ ∀ m, run P (pre ++ compE e pre.length ++ k) (n + m) pre.length s w
+          = run P (pre ++ compE e pre.length ++ k) m (pre.length + size e) (v :: s) w') ∨
+       (∃ x w' n l, l <+: p ∧ logOf w' = logOf w ++ l ∧
+          ∀ m, run P (pre ++ compE e pre.length ++ k) (n + 1 + m) pre.length s w = .exc x w')) := by
+  have h := evalE_order_paths_partial P logOf hL e hq w
+  have hc := compE_correct P e pre k s w
+  simp only at hc
+  cases hr : evalE P e w with
+  | ok v w' =>
+    rw [hr] at hc h
+    obtain ⟨n, hn'⟩ := hc
+    obtain ⟨p, hp, e1⟩ := h
+    exact ⟨p, hp, Or.inl ⟨v, w', n, e1, hn'⟩⟩
+  | err x w' =>
+    rw [hr] at hc h
+    obtain ⟨n, hn'⟩ := hc
+    obtain ⟨p, hp, l, hl, e1⟩ := h
+    exact ⟨p, hp, Or.inr ⟨x, w', n, l, hl, e1, hn'⟩⟩
+
+/-- non-vacuity: `ev(1,…) or h(ev(2,…), q=ev(3,…), *ev(4,…)) if ev(5,…) else lambda a=ev(6,…), *, k=ev(7,…): a` -/
+example : QCalls (fun n => n ≠ "ev")
+    (.boolop true (.atom 1 (.int 0)) (.cons (.ifexp (.atom 5 (.int 1))
+      (.callx (.name "h") (.cons (.atom 2 (.int 1)) .nil) (.cons "q" (.atom 3 (.int 1)) .nil) (.some (.atom 4 (.int 1))) .none)
+      (.lambda { pos := ["a"], kwonly := ["k"] } (.cons (.atom 6 (.int 1)) .nil) (.cons "k" (.atom 7 (.int 1)) .nil) (.name "a"))) .nil)) := by
+  simp [QCalls, QCallsEs, QCallsKWs, QCallsOpt, isQName]
+
+/-- test: the paths of that tree: `or` stops after 1; or 1, test 5, then the call's operands 2,3,4
+(keyword value before the `*` expression) or the lambda's defaults 6,7 (positional before keyword-only) -/
+example : paths
+    (.boolop true (.atom 1 (.int 0)) (.cons (.ifexp (.atom 5 (.int 1))
+      (.callx (.name "h") (.cons (.atom 2 (.int 1)) .nil) (.cons "q" (.atom 3 (.int 1)) .nil) (.some (.atom 4 (.int 1))) .none)
+      (.lambda { pos := ["a"], kwonly := ["k"] } (.cons (.atom 6 (.int 1)) .nil) (.cons "k" (.atom 7 (.int 1)) .nil) (.name "a"))) .nil))
+    = [[1], [1, 5, 2, 3, 4], [1, 5, 6, 7]] := by
+  decide
+
 /-- the VM inherits it: the world in which the compiled code arrives (or raises) is the
 reference's world, hence its log is ordered the same way -/
 theorem vm_order_partial (hL : LogDiscipline P logOf) (e : Expr) (hn : NoCall e)
@@ -366,21 +498,56 @@ def demoP : Prims Int String (List Int) where
   mkList _ := fun w => .ok 0 w
   mkSet _ := fun w => .ok 0 w
   mkSlice _ _ := fun w => .ok 0 w
+  mkSlice3 _ _ _ := fun w => .ok 0 w
   newDict := fun w => .ok 0 w
   dictSet _ _ _ := fun w => .ok () w
-  codeObj _ := 0
-  mkFunction _ _ := fun w => .ok 0 w
+  codeObj _ _ _ := 0
+  mkFunction _ _ _ _ := fun w => .ok 0 w
   unpack n _ := fun w => .ok (List.replicate n 0) w
+  unpackEx b a _ := fun w => .ok (List.replicate (b + 1 + a) 0) w
+  callEx _ args _ _ _ := fun w => .ok (Int.ofNat args.length) w
+  delName _ := fun w => .ok () w
+  delitem _ _ := fun w => .ok () w
+  delattr _ _ := fun w => .ok () w
+  loadFast _ := fun w => .ok 1 w
+  loadGlobal _ := fun w => .ok 0 w
 
 theorem demo_unpackLen : UnpackLen demoP := by
-  intro n v w vs w' h
-  simp only [demoP] at h
-  cases h
-  simp
+  constructor
+  · intro n v w vs w' h
+    simp only [demoP] at h
+    cases h
+    simp
+  · intro b a v w vs w' h
+    simp only [demoP] at h
+    cases h
+    simp
 
 /-- non-vacuity of `LogDiscipline`: the demo instance keeps a probe log -/
 theorem demo_logDiscipline : LogDiscipline demoP (fun w => w.map Int.toNat) := by
   constructor <;> intros <;> simp [demoP, Prims.atom, M.bind, Res.world]
+
+/-- a second tiny instance in which only the callee `ev` logs (general calls of other names are quiet) -/
+def demoQ : Prims Int String (List Int) :=
+  { demoP with
+    loadName := fun n w => .ok (if n == "ev" then 1 else 0) w
+    call := fun f args w => match f, args with
+      | 1, [i, v] => .ok v (w ++ [i])
+      | _, _ => .ok 0 w }
+
+/-- non-vacuity of `LogDisciplineQ` (every name except `ev` is quiet) -/
+theorem demo_logDisciplineQ : LogDisciplineQ demoQ (fun w => w.map Int.toNat) (fun n => n ≠ "ev") := by
+  refine { toLogDiscipline := ?_, callQ := ?_, callExQ := ?_ }
+  · constructor <;> intros <;> simp [demoQ, demoP, Prims.atom, M.bind, Res.world]
+  · intro n hn w v w1 h vs w2
+    simp only [demoQ] at h
+    have hv : v = 0 := by
+      have : (n == "ev") = false := by simpa using hn
+      simp [this] at h; exact h.1.symm
+    subst hv
+    simp [demoQ, Res.world]
+  · intro n hn w v w1 h vs ks sv dv w2
+    simp [demoQ, demoP, Res.world]
 
 /-- non-vacuity of the hypotheses of `evalE_order_partial` at a nested compare/boolop/ifexp term -/
 example : NoCall (.boolop true (.compare (.atom 1 (.int 1)) (.more .lt (.atom 2 (.int 5)) (.one .lt (.atom 3 (.int 3)))))
